@@ -6,22 +6,32 @@ import FastorModel.Model.Inverse
 namespace Fastor.Driver
 open Fastor Fastor.Inv
 
-def ratStr (q : Rat) : String := if q.den == 1 then toString q.num else s!"{q.num}/{q.den}"
+private def ratStr (q : Rat) : String := if q.den == 1 then toString q.num else s!"{q.num}/{q.den}"
 
-def fnv1a (h : UInt64) (s : String) : UInt64 :=
+private def fnv1a (h : UInt64) (s : String) : UInt64 :=
   s.foldl (fun h c => (h ^^^ UInt64.ofNat c.toNat) * 1099511628211) h
 
-def fnvInit : UInt64 := 14695981039346656037
+private def fnvInit : UInt64 := 14695981039346656037
 
-def digestRats (xs : List Rat) : String :=
+private def digestRats (xs : List Rat) : String :=
   hex (xs.foldl (fun h q => fnv1a (fnv1a h (ratStr q)) ";") fnvInit)
 
 private def parseInts (s : String) : Array Int :=
   (s.splitOn ",").foldl (fun acc t => match t.toInt? with | some v => acc.push v | none => acc) #[]
 
+/-- `q = ± 2^k` (numerator and denominator powers of two): dividing by it is exact in binary floating point -/
+private def isPow2Nat (n : Nat) : Bool := n != 0 && (n &&& (n - 1)) == 0
+private def dyadicUnit (q : Rat) : Bool := isPow2Nat q.num.natAbs && isPow2Nat q.den
+private def bitLen (n : Nat) : Nat := if n == 0 then 0 else Nat.log2 n + 1
+/-- ` DY=<all divisors are ± powers of two> XBITS=<bit length of the largest numerator/denominator of X>` -/
+private def exactInfo (divs : List Rat) (xs : List Rat) : String :=
+  let dy := divs.all dyadicUnit
+  let xb := xs.foldl (fun m q => max m (max (bitLen q.num.natAbs) (bitLen q.den))) 0
+  s!" DY={if dy then 1 else 0} XBITS={xb}"
+
 private def ratGt (x y : Rat) : Bool := decide (y.abs < x.abs)
 
-def entries (n : Nat) (X : Mat Rat) : List Rat :=
+private def entries (n : Nat) (X : Mat Rat) : List Rat :=
   (List.range (n * n)).map fun k => X (k / n) (k % n)
 
 def runInv (kv : List (String × String)) : String := Id.run do
@@ -37,7 +47,8 @@ def runInv (kv : List (String × String)) : String := Id.run do
     let defd := divs.all (· != 0)
     if !defd then return "DEF=0"
     let X := memoV (nb * n * n) (batchedInverse n a)
-    return s!"DEF=1 X={digestRats ((List.range (nb * n * n)).map X.get)} DIVS={digestRats divs}"
+    let xs := (List.range (nb * n * n)).map X.get
+    return s!"DEF=1 X={digestRats xs} DIVS={digestRats divs}{exactInfo divs xs}"
   if ints.size != n * n then return "bad-op"
   let A : Mat Rat := memo n n { get := fun i j => ((ints.getD (i * n + j) 0 : Int) : Rat) }
   let p := pivotVec ratGt n A
@@ -47,23 +58,31 @@ def runInv (kv : List (String × String)) : String := Id.run do
   | "simple" =>
     let divs := invDivs n A
     if !(divs.all (· != 0)) then return "DEF=0"
-    return s!"DEF=1 X={digestRats (entries n (inverseSimple n A))} DIVS={digestRats divs} LEAVES={",".intercalate ((leafSizes n).map toString)}"
+    let xs := entries n (inverseSimple n A)
+    return s!"DEF=1 X={digestRats xs} DIVS={digestRats divs} LEAVES={",".intercalate ((leafSizes n).map toString)}{exactInfo divs xs}"
   | "simplepiv" =>
     let divs := invDivs n PA
     if !(divs.all (· != 0)) then return s!"DEF=0 P={pstr}"
-    return s!"DEF=1 X={digestRats (entries n (inverseSimplePiv ratGt n A))} DIVS={digestRats divs} P={pstr}"
+    let xs := entries n (inverseSimplePiv ratGt n A)
+    return s!"DEF=1 X={digestRats xs} DIVS={digestRats divs} P={pstr}{exactInfo divs xs}"
   | "ut" =>
     let divs := utDivs n A
     if !(divs.all (· != 0)) then return "DEF=0"
-    return s!"DEF=1 X={digestRats (entries n (tinverseUpper n A))} DIVS={digestRats divs}"
+    let xs := entries n (tinverseUpper n A)
+    return s!"DEF=1 X={digestRats xs} DIVS={digestRats divs}{exactInfo divs xs}"
   | "lut" =>
-    return s!"DEF=1 X={digestRats (entries n (tinverseUniLower n A))}"
+    let xs := entries n (tinverseUniLower n A)
+    return s!"DEF=1 X={digestRats xs}{exactInfo [] xs}"
   | "simplelu" | "blocklu" =>
-    if !((luPivots n A).all (· != 0)) then return "DEF=0"
-    return s!"DEF=1 X={digestRats (entries n (inverseLU ratGt false n A))}"
+    let pv := luPivots n A
+    if !(pv.all (· != 0)) then return "DEF=0"
+    let xs := entries n (inverseLU ratGt false n A)
+    return s!"DEF=1 X={digestRats xs}{exactInfo pv xs}"
   | "simplelupiv" | "blocklupiv" =>
-    if !((luPivots n PA).all (· != 0)) then return s!"DEF=0 P={pstr}"
-    return s!"DEF=1 X={digestRats (entries n (inverseLU ratGt true n A))} P={pstr}"
+    let pv := luPivots n PA
+    if !(pv.all (· != 0)) then return s!"DEF=0 P={pstr}"
+    let xs := entries n (inverseLU ratGt true n A)
+    return s!"DEF=1 X={digestRats xs} P={pstr}{exactInfo pv xs}"
   | _ => return "bad-op"
 
 end Fastor.Driver
